@@ -32,6 +32,18 @@ CLS_KINDS["Specialization"] = {"Specialization", "Mention"}
 NESTED_LOCALS = ["r?u=http://a/z", "http://other/x"]
 
 
+def declared_uri(cont, s):
+    """URI of 'prefix:local' by the declarations alone: the container's own, else its document's (None: not decided here)"""
+    if not isinstance(s, str) or ":" not in s:
+        return None
+    p, l = s.split(":", 1)
+    for scope in [cont] + ([cont.document] if (cont.is_bundle() and cont.document is not None) else []):
+        for n in scope.get_registered_namespaces():
+            if n.prefix == p:
+                return n.uri + l
+    return None
+
+
 def expected_indices(cont, uri):
     return [i for i, r in enumerate(cont.records) if r.identifier is not None and r.identifier.uri == uri]
 
@@ -67,6 +79,13 @@ def check_container(ctx, g, w, c, fails, flags):
                 # object may have registered its namespace in this container (strings are resolved without side effects)
                 res = cont.valid_qualified_name(x)
                 uri = res.uri if res is not None else None
+                # … and, independently of the library's resolver: a prefix the container itself declares denotes that namespace
+                # (else the one its document declares)
+                ind = declared_uri(cont, x)
+                if ind is not None and ind != uri:
+                    fails.append(Failure("oracle", None, "%r is read as %s although the container declares that prefix as %s" % (
+                        x, uri, ind), {"ops": list(w.ops)}))
+                    uri = ind
             got = w.get_record(c, x)
             exp = expected_indices(w.conts[c], uri) if uri is not None else []
             got_idx = w.outs[-1]["recs"]
